@@ -904,6 +904,8 @@ func (h *vfE2H) exec(line string) {
 		h.doStall(ai(1), ai(2), ai(3), ai(4))
 	case "slowpause": // slowpause T C nfake
 		h.doSlowPause(ai(1), ai(2), ai(3))
+	case "attwrap": // attwrap n   (F11, thorough tier)
+		h.doAttWrap(ai(1))
 	}
 }
 
